@@ -65,6 +65,7 @@ type Spec struct {
 	MidAfterUs int            `json:"mid_after_us"`
 	Quiesce    bool           `json:"quiesce"` // before Shutdown, wait until everything enqueued was written
 	QuiesceMs  int            `json:"quiesce_ms,omitempty"`
+	Cap        int            `json:"cap,omitempty"`  // 0: the logger's own buffer capacity (1024); else a small one (verif helper)
 	Glue       []string       `json:"glue,omitempty"` // start-twice | shutdown-twice | nil-adapter | late-adapter | pre-start | nil-tracer | concurrent-shutdown
 }
 
@@ -477,6 +478,9 @@ func childMain() {
 		fmt.Fprintln(os.Stderr, "child: start:", err)
 		os.Exit(4)
 	}
+	if spec.Cap > 0 {
+		log.VerifSetBufferCap(spec.Cap)
+	}
 	if glue["start-twice"] {
 		_ = log.Start() // documented no-op
 	}
@@ -719,8 +723,8 @@ func childMain() {
 	if hang {
 		h = 1
 	}
-	fmt.Fprintf(w, "meta quiesce=%s hang=%d writes_at_return=%d writes=%d after_return=%d lines=%d unfinished=%d foreign=%d\n",
-		quiesce, h, writesAtRet, c.nWrites, c.afterSh, c.nLines.Load(), unfinished, c.foreign)
+	fmt.Fprintf(w, "meta cap=%d quiesce=%s hang=%d writes_at_return=%d writes=%d after_return=%d lines=%d unfinished=%d foreign=%d\n",
+		log.VerifBufferCap(), quiesce, h, writesAtRet, c.nWrites, c.afterSh, c.nLines.Load(), unfinished, c.foreign)
 	c.mu.Unlock()
 	w.Flush()
 	res.Close()
